@@ -1,6 +1,6 @@
 (* statement pins and axiom audit for C11 (compiled on every check; regenerate BY HAND with driver/mkpins.py) *)
 From ChiaV.Base Require Import Bytes.
-From ChiaV.Clvm Require Import Ints Sexp IntsProofs LadderProofs.
+From ChiaV.Clvm Require Import Ints Sexp IntsProofs LadderProofs WidthProofs.
 From ChiaV.Gen Require Import Ladders.
 Open Scope N_scope.
 From ChiaV.Props Require Import C11.
@@ -46,3 +46,13 @@ Check C11_sanitize_positive_overflow :
   forall bs k,
   sanitize_uint bs k = SPosOverflow <-> exists n, bs = canon_n n /\ 256 ^ N.of_nat k <= n.
 Print Assumptions C11_sanitize_positive_overflow.
+Check C11_encode_number_unsigned_canonical :
+  forall s, encode_number s false = canon_n (be2n s).
+Print Assumptions C11_encode_number_unsigned_canonical.
+Check C11_encode_number_width :
+  forall LEN v, v < 256 ^ N.of_nat LEN -> encode_number (n2be LEN v) false = canon_n v.
+Print Assumptions C11_encode_number_width.
+Check C11_decode_number_unsigned :
+  forall LEN v,
+  v < 256 ^ N.of_nat LEN -> decode_number LEN false (canon_n v) = Some (n2be LEN v).
+Print Assumptions C11_decode_number_unsigned.
